@@ -138,7 +138,8 @@ pub fn replay(args: &Args) {
     let cases = read_ndjson(args.req("in"));
     let laws = args.get("laws").map(Laws3::load);
     let mut rep = Report::new(args.get("prop").unwrap_or("C11"), args.req("out"));
-    for v in &cases {
+    for v in cases {
+        let v = &v;
         match get_str(v, "op") {
             "agg" => {
                 rep.cases += 1;
